@@ -65,16 +65,48 @@ def _is_len_of_stack(e: ast.AST) -> bool:
     )
 
 
-class Balance(Flow):
-    """state = (delta, frozenset((snapshot_name, delta_at_snapshot)))"""
+INF = float("inf")
+# calls that run foreign code which can swallow an exception raised by one of
+# our own callbacks after that callback has pushed (Lua pcall / error handling)
+SWALLOWING_CALLS = ("lua_invoke",)
 
-    def __init__(self, rr: RuleResult, relfile: str, qual: str):
+
+class Balance(Flow):
+    """state = (delta, frozenset((snapshot_name, delta_at_snapshot)))
+    delta == INF: an unknown number of entries may have been left behind by a
+    callee whose exception was swallowed."""
+
+    def __init__(self, rr: RuleResult, relfile: str, qual: str, cg=None, push_reach=frozenset()):
         self.rr = rr
         self.relfile = relfile
         self.qual = qual
+        self.cg = cg
+        self.push_reach = push_reach
         self.pushes = 0
         self.pops = 0
         self.restores = 0
+        self.catch_boundaries = 0
+        self._try_of_handler: dict = {}
+
+    def run_stmt(self, st, states):
+        if isinstance(st, ast.Try):
+            for h in st.handlers:
+                self._try_of_handler[h] = st
+        return self._run_stmt2(st, states)
+
+    def handler_entry(self, handler, state):
+        st = self._try_of_handler.get(handler)
+        if st is None or self.cg is None:
+            return [state]
+        reach = False
+        for b in st.body:
+            for callee in self.cg.callees_in(self.qual, b):
+                if callee in self.push_reach or callee == "%expander":
+                    reach = True
+        if reach:
+            self.catch_boundaries += 1
+            return [(INF, state[1])]
+        return [state]
 
     def _calls_in_order(self, node: ast.AST):
         out = []
@@ -110,6 +142,9 @@ class Balance(Flow):
             elif m == "pop":
                 delta -= 1
                 self.pops += 1
+            elif isinstance(c.func, ast.Attribute) and c.func.attr in SWALLOWING_CALLS:
+                delta = INF
+                self.catch_boundaries += 1
         return [(delta, snaps)]
 
     def transfer(self, st, state):
@@ -125,7 +160,7 @@ class Balance(Flow):
             snaps = frozenset([x for x in snaps if x[0] != name] + [(name, delta)])
         return [(delta, snaps)]
 
-    def run_stmt(self, st, states):
+    def _run_stmt2(self, st, states):
         # restore idiom: while len(x.expand_stack) > NAME: x.expand_stack.pop()
         if isinstance(st, ast.While) and self._is_restore(st):
             name = st.test.comparators[0].id
@@ -143,7 +178,7 @@ class Balance(Flow):
             from ..core.flow import Outcome
 
             return Outcome(fall=out)
-        return super().run_stmt(st, states)
+        return Flow.run_stmt(self, st, states)
 
     @staticmethod
     def _is_restore(st: ast.While) -> bool:
@@ -177,10 +212,10 @@ class Balance(Flow):
                     construct="loop@{} back edge via {}".format(_loop_label(loop), kind),
                     message="one iteration of the loop changes the length of expand_stack by {:+d} "
                     "(reached through `{}` at line {})".format(
-                        state[0] - min(entry_deltas), kind, getattr(via, "lineno", 0)
+                        0 if state[0] == INF else int(state[0] - min(entry_deltas)), kind, getattr(via, "lineno", 0)
                     ),
                     line=getattr(via, "lineno", 0),
-                    detail={"loop_line": loop.lineno, "delta": state[0], "entry": sorted(entry_deltas)},
+                    detail={"loop_line": loop.lineno, "delta": str(state[0]), "entry": [str(x) for x in sorted(entry_deltas)]},
                 )
             )
             return None
@@ -200,25 +235,44 @@ def _touches_stack(fn: ast.AST) -> bool:
     return False
 
 
+def _fmt_delta(d) -> str:
+    return "an unknown number of leaked entries (a swallowed exception is not followed by a restore)" if d == INF else "{:+d}".format(int(d))
+
+
+def _has_catching_try(fn: ast.AST) -> bool:
+    for n in walk_no_nested(fn):
+        if isinstance(n, ast.Try) and n.handlers:
+            return True
+    return False
+
+
 def rule_r1(ctx) -> RuleResult:
+    from ..core.callgraph import CallGraph
+
     rr = RuleResult("C16.R1", "expansion path is balanced on every return and around every loop iteration",
                     min_instances=15)
+    cg = CallGraph(ctx.index)
+    pushers = {dotted for dotted, m, f in ctx.index.all_functions() if _touches_stack(f)}
+    push_reach = frozenset(cg.reaches(pushers))
+    closure = cg.closure(["core.Wtp.expand", "core.Wtp.parse"])
     fns = []
     for dotted, m, f in ctx.index.all_functions():
-        if _touches_stack(f):
+        if dotted in pushers:
             fns.append((dotted, m, f))
-    rr.instances["functions_pushing_or_popping"] = len(fns)
-    if len(fns) < 5:
-        raise AnalysisError("C16.R1: only {} functions push/pop expand_stack (7 confirmed by hand)".format(len(fns)))
+        elif dotted in closure and dotted in push_reach and _has_catching_try(f):
+            fns.append((dotted, m, f))
+    rr.instances["functions_pushing_or_popping"] = len(pushers)
+    rr.instances["functions_with_catch_boundary_examined"] = len(fns) - len(pushers)
+    if len(pushers) < 5:
+        raise AnalysisError("C16.R1: only {} functions push/pop expand_stack (7 confirmed by hand)".format(len(pushers)))
     exits = 0
     for dotted, m, f in fns:
         ctx.touched(dotted, m.relpath)
-        w = Balance(rr, m.relpath, dotted)
+        w = Balance(rr, m.relpath, dotted, cg, push_reach)
         o = w.run_function(f, [(0, frozenset())])
         seen = {}
         for node, (delta, _) in o.ret:
-            key = node
-            seen.setdefault(key, set()).add(delta)
+            seen.setdefault(node, set()).add(delta)
         for node, deltas in seen.items():
             exits += 1
             label = (
@@ -234,15 +288,15 @@ def rule_r1(ctx) -> RuleResult:
                         file=m.relpath,
                         function=dotted,
                         construct=label,
-                        message="this exit can be reached with expand_stack {:+d} relative to function entry".format(bad[0]),
+                        message="this exit can be reached with expand_stack changed by {} relative to function entry".format(_fmt_delta(bad[0])),
                         line=getattr(node, "lineno", 0),
-                        detail={"deltas": sorted(deltas), "pushes": w.pushes, "pops": w.pops},
+                        detail={"deltas": [str(d) for d in sorted(deltas)], "pushes": w.pushes, "pops": w.pops},
                     )
                 )
             else:
                 rr.ok(dotted, label, {"fn": dotted, "exit": label[:80], "delta_at_exit": 0})
         rr.instances[dotted] = {"pushes": w.pushes, "pops": w.pops, "restore_idioms": w.restores,
-                                "returns": len(seen)}
+                                "catch_boundaries": w.catch_boundaries, "returns": len(seen)}
     rr.instances["exits"] = exits
     return rr
 
